@@ -5,3 +5,4 @@ import BromeliaVerif.Properties.C20
 import BromeliaVerif.Properties.C01
 import BromeliaVerif.Properties.C02
 import BromeliaVerif.Properties.C03
+import BromeliaVerif.Properties.C10
